@@ -195,7 +195,7 @@ Definition chord_plain (k : key) : bool :=
 Definition chord_shift (u : uni) (k : key) : bool :=
   (chord_mods k =? ModShift) &&
   match k_text k with
-  | [s] => printable_rune s && negb (s =? 127) && rune_valid (k_code k) &&
+  | [s] => printable_rune s && negb (s =? 127) && printable_rune (k_code k) &&
            ((u_lower u (k_code k) && (s =? u_toupper u (k_code k)))
             || ((s =? k_code k) && negb (u_letter u s) && u_graphic u s && negb (u_upper u s)))
   | _ => false
